@@ -40,6 +40,7 @@ Documented command semantics implemented (everything else is answered RC_CMD):
                  (other signals are accepted and have no effect here)
 """
 import struct
+import zlib
 
 CMD_VER, CMD_READ, CMD_NNP, CMD_SIG, CMD_FFD = 0, 2, 20, 22, 23
 RC_OK, RC_LEN, RC_CMD, RC_ROUTE = 0x80, 0x81, 0x83, 0x87
@@ -88,11 +89,16 @@ class SimMachine(object):
         self.sched = [set(tuple(c) for c in miss) for miss in spec.get("sched", [])]
         self.deaf = set()
         self.log = []          # every request, decoded from the wire, with the reply's arg1 and data
-        self.fill_log = []     # per FFS: the chips that missed it
+        self.fill_log = []     # per FFS: the chips that missed it and a summary of every core just before
 
     # ------------------------------------------------------------------ observation
     def snapshot(self):
         return [[x, y, [[s, a, list(bytearray(img))] for s, a, img in self.cores[(x, y)]]] for x, y in self.order]
+
+    def summary(self):
+        """[x, y, [[state, app, crc32(image), len(image)] * 18]] for every chip (cheap ground truth)"""
+        return [[x, y, [[s, a, zlib.crc32(img) & 0xffffffff, len(img)] for s, a, img in self.cores[(x, y)]]]
+                for x, y in self.order]
 
     # ------------------------------------------------------------------ memory
     def read(self, chip, addr, n):
@@ -120,7 +126,7 @@ class SimMachine(object):
         op = (a1 >> 24) & 0xff
         if op == NN_FFS:
             self.deaf = self.sched.pop(0) if self.sched else set()
-            self.fill_log.append(sorted(self.deaf))
+            self.fill_log.append(dict(missed=sorted(self.deaf), before=self.summary()))
             for c in self.listening():
                 self.fills[c] = Fill((a1 >> 16) & 0xff, (a1 >> 8) & 0xff, self.base)
         elif op == NN_FFCS:
